@@ -16,7 +16,9 @@ namespace Ssv.Registry
 
 /-- * processBlockEvents: one transaction per block, `defer Discard`, marker read, events, marker SAVED THROUGH THE
       TRANSACTION (`SaveLastProcessedBlock` = `db.Using(rw).Set`), then Commit;
-    * setupEventHandling resumes at `lastProcessedBlock + 1` (call order + fingerprint of the function);
+    * setupEventHandling resumes at `lastProcessedBlock + 1` (call order + the two `… + 1` statements are present);
+    * processBlockEvents opens ONE transaction (`txn := eh.nodeStorage.Begin()`, `defer txn.Discard()`) and has the
+      inferior-block guard;
     * handleShareCreation calls the key manager BEFORE `Shares().Save`; handleValidatorRemoved cleans the decided
       history, deletes the share, then calls the key manager; reactivation bumps slashing protection after the save;
     * ekm AddShare / RemoveShare look the account up first (add only if absent, remove only if present);
@@ -27,7 +29,8 @@ theorem C12_tie_callsites :
       ["Begin", "Discard", "GetLastProcessedBlock", "processEvent", "SaveLastProcessedBlock", "Commit"] ∧
     Gen.calls_SaveLastProcessedBlock = ["Set", "Using"] ∧
     Gen.calls_setupEventHandling = ["GetLastProcessedBlock", "SetUint64", "SyncHistory", "SetUint64", "SyncOngoing"] ∧
-    Gen.src_setupEventHandling = "1b3d73e434bd2a70" ∧
+    Gen.has_resume = [true, true] ∧
+    Gen.has_processBlockEvents = [true, true, true, true] ∧
     Gen.calls_handleShareCreation = ["validatorAddedEventToShare", "BelongsToOperator", "AddShare", "Save"] ∧
     Gen.calls_handleValidatorRemoved = ["Get", "CleanAllInstances", "Each", "Delete", "BelongsToOperator", "RemoveShare"] ∧
     Gen.calls_handleClusterReactivated = ["processClusterEvent", "BumpSlashingProtection"] ∧
